@@ -1,6 +1,7 @@
 """C07 - cell numbers, rows/columns and coordinates (spec/GridGeom.tla)"""
 import json
 import math
+import warnings
 import numpy as np
 
 from harness.core import Machinery
@@ -106,6 +107,23 @@ def replay_shape(ctx, Grid, c, h, reuse=None):
             return
         except Exception:
             pass
+    # ... also when they come as missing / infinite entries of a float array next to valid numbers (flagged by NaN / -1 or by an error)
+    for bad in (float("nan"), float("inf"), float("-inf")):
+        arr = np.array([0.0, bad, float(n - 1)])
+        try:
+            with warnings.catch_warnings():
+                warnings.simplefilter("ignore")
+                xyk = np.asarray(g.cell2coord(arr), dtype=float)
+                rck = np.asarray(g.cell2rowcol(arr))
+        except Exception:
+            continue
+        if not (math.isnan(xyk[1][0]) and math.isnan(xyk[1][1])) or [int(rck[1][0]), int(rck[1][1])] != [-1, -1]:
+            ctx.violation("invalid-cell:not-flagged", "cell number %r in a float array -> coord %s rowcol %s" %
+                          (bad, xyk[1].tolist(), rck[1].tolist()), dict(case, cell=repr(bad)))
+            return
+        if not (np.array_equal(xyk[[0, 2]], g.cell2coord([0, n - 1])) and np.array_equal(rck[[0, 2]], g.cell2rowcol([0, n - 1]))):
+            ctx.violation("invalid-cell:neighbouring-entries", "valid entries next to %r changed: %s" % (bad, xyk.tolist()), dict(case, cell=repr(bad)))
+            return
     # xvalues / yvalues / limits
     xv, yv = g.xvalues, g.yvalues
     if [float(v) for v in xv] != [xll + (4 * i + 2) * q for i in range(nc)] or \
